@@ -15,7 +15,9 @@ import (
 
 // C03 — generation is deterministic: schedule search over every map-range site.
 
-const pipelineMaxTicks = 400_000_000
+// pipelineMaxTicks bounds one pipeline execution outside C04 (which uses its own,
+// much larger budget): ~1000x the ticks of a typical run.
+const pipelineMaxTicks = 30_000_000
 
 type c03Payload struct {
 	W         *Workload      `json:"workload"`
@@ -318,6 +320,9 @@ func init() {
 			}
 			w := GenWorkload(r, ctx.Corpus, maxLangs, GenOpts{NoAllOf: r.Chance(2, 3)})
 			dir := filepath.Join(ctx.Dirs.Root, "case")
+			if r.Chance(2, 3) {
+				EnrichWorkload(r.Fork("enrich"), w, dir)
+			}
 			res := &CaseResult{}
 			base := simrt.Schedule{Default: simrt.Canonical}
 			s0, _, e0 := execWorkload(dir, w, base, nil, opts)
